@@ -346,8 +346,20 @@ def _flagged_wrapper_sites(prog, classes, vf, p):
     abstractly (rules/absint.py) with the constants that site passes; the value that reaches the constructor's keyword
     is fresh when it is a copy / new container.  Returns [(caller, call, fresh, expression shown)] or None."""
     from . import absint
-    flags = [q for q in vf.params if isinstance(vf.param_default(q), ast.Constant) and
-             isinstance(vf.param_default(q).value, bool)]
+    def _is_bool(a):
+        return isinstance(a, ast.Constant) and isinstance(a.value, bool)
+    hp0 = [q for q in vf.params if q not in ('self', 'cls')]
+    flags = [q for q in vf.params if _is_bool(vf.param_default(q))]
+    # a flag without a default: a parameter every call site in the class family supplies with a boolean constant
+    for g in prog.all_functions():
+        if g.owner_class not in classes:
+            continue
+        for c2 in calls(g):
+            if isinstance(c2.func, ast.Attribute) and isinstance(c2.func.value, ast.Name) and \
+                    c2.func.value.id in ('self', 'cls') and c2.func.attr == vf.name:
+                for q, a in list(zip(hp0, c2.args)) + [(k.arg, k.value) for k in c2.keywords if k.arg]:
+                    if _is_bool(a) and q in vf.params and q not in flags:
+                        flags.append(q)
     if not flags:
         return None
     out = []
@@ -359,12 +371,14 @@ def _flagged_wrapper_sites(prog, classes, vf, p):
                     c2.func.value.id in ('self', 'cls') and c2.func.attr == vf.name):
                 continue
             hp = [q for q in vf.params if q not in ('self', 'cls')]
-            env = {q: vf.param_default(q).value for q in flags}
+            env = {q: vf.param_default(q).value for q in flags if _is_bool(vf.param_default(q))}
             for q, a in list(zip(hp, c2.args)) + [(k.arg, k.value) for k in c2.keywords if k.arg]:
                 if q in flags:
                     if not (isinstance(a, ast.Constant) and isinstance(a.value, bool)):
                         return None
                     env[q] = a.value
+            if any(q not in env for q in flags):
+                return None
             paths = absint.Interp(vf, {}).run(env=env)
             fresh, shown, vt = True, ast.Name(id=p, ctx=ast.Load()), None
             found = False
